@@ -129,10 +129,9 @@ theorem RolesCore.of_mapSeqs {s : St} (h : RolesCore s) (f : Seq → Seq) (ha : 
     intro id a ⟨q, hq, hb1, hr1⟩
     exact ⟨f q, by rw [getSeq_mapSeqs s f ha, hq]; rfl, (hb q).trans hb1, (hr q).trans hr1⟩
   constructor
-  · refine ⟨h.uniq.ids, ?_⟩
-    apply h.uniq.addrs.of_addrs_eq
-    show (s.seqs.map f).map (·.addr) = _
-    rw [List.map_map]; apply List.map_congr_left; intro x _; exact ha x
+  · have hm : (s.seqs.map f).map (·.addr) = s.seqs.map (·.addr) := by
+      rw [List.map_map]; apply List.map_congr_left; intro x _; exact ha x
+    exact ⟨h.uniq.ids, h.uniq.addrs.of_addrs_eq hm, h.uniq.sorted.of_addrs_eq hm⟩
   · intro r hr' a hp; exact hbo _ _ (h.prop r hr' a hp)
   · intro r hr' a hp; exact hbo _ _ (h.succ r hr' a hp)
   · exact h.ne
@@ -226,7 +225,7 @@ theorem RolesCore.of_insertRa {s : St} {r : Rollapp} (h : RolesCore s) (hf : get
   have hmem : ∀ x, x ∈ insertSorted (fun x y => decide (x.id < y.id)) r s.ras → x = r ∨ x ∈ s.ras :=
     fun x hx => insertSorted_mem _ _ _ _ hx
   constructor
-  · exact ⟨ids_nodup_insert s.ras r h.uniq.ids (getRa_none hf), h.uniq.addrs⟩
+  · exact ⟨ids_nodup_insert s.ras r h.uniq.ids (getRa_none hf), h.uniq.addrs, h.uniq.sorted⟩
   · intro x hx a ha
     rcases hmem x hx with h1 | h1
     · subst h1; rw [hp] at ha; cases ha
@@ -266,7 +265,7 @@ theorem RolesCore.of_insertSeq {s : St} {q : Seq} (h : RolesCore s) (hf : getSeq
     rw [getSeq_insert_other]; exact hq1
     intro e; rw [e, hq1] at hf; cases hf
   constructor
-  · exact ⟨h.uniq.ids, nodup_insert s.seqs q h.uniq.addrs (getSeq_none hf)⟩
+  · exact ⟨h.uniq.ids, nodup_insert s.seqs q h.uniq.addrs (getSeq_none hf), sorted_insert s.seqs q h.uniq.sorted (getSeq_none hf)⟩
   · intro r hr a ha; exact hbo _ _ (h.prop r hr a ha)
   · intro r hr a ha; exact hbo _ _ (h.succ r hr a ha)
   · exact h.ne
